@@ -129,7 +129,7 @@ PROPS["C13"] = {
     "rule": "orders 0..=5, rates 0..=32, i32/i64/i128, arbitrary low-rate sequences sized to avoid overflow; contract violations in the correspondence stream",
 }
 PROPS["C05"] = {
-    "trusted_extra": ["Props/C03F.lean, Props/C04F.lean, Props/C05q.lean (QuantFl), Props/C15F.lean and Props/C15Fc.lean take the standard model of floating-point arithmetic as a hypothesis (structure FlModel u: each + - x returns exact*(1+d), |d| <= u; FlModelU adds an absolute underflow term; FlModelX: representable exact results are returned exactly; max/min exact). That IEEE binary32/64 satisfies it with u = 2^-24 / 2^-53 absent overflow is assumed (Higham, Accuracy and Stability of Numerical Algorithms, Thm 2.2), not proved; the bit-level behaviour incl. NaN/inf is tied by the fbiquad correspondence over Lean Float32/Float, which trusts the Lean runtime's float primitives to be IEEE."],
+    "trusted_extra": ["Props/C03F.lean, Props/C04F.lean, Props/C05q.lean (QuantFl), Props/C15F.lean, Props/C15Fc.lean and Props/C15Fs.lean take the standard model of floating-point arithmetic as a hypothesis (structure FlModel u: each + - x returns exact*(1+d), |d| <= u; FlModelU adds an absolute underflow term; FlModelX: representable exact results are returned exactly; max/min exact). That IEEE binary32/64 satisfies it with u = 2^-24 / 2^-53 absent overflow is assumed (Higham, Accuracy and Stability of Numerical Algorithms, Thm 2.2), not proved; the bit-level behaviour incl. NaN/inf is tied by the fbiquad correspondence over Lean Float32/Float, which trusts the Lean runtime's float primitives to be IEEE."],
     "modules": ["C05", "C05q"],
     "families_exhaustive": ["num8_all"],
     "families": ["num"],
@@ -148,7 +148,7 @@ PROPS["C05"] = {
     "rule": "i8 macc: the complete (u, s) plane x limit pairs x e1 lattice (complete e1 range in thorough); i8 mul/div all pairs; wider types lattice + random",
 }
 PROPS["C03"] = {
-    "trusted_extra": ["Props/C03F.lean, Props/C04F.lean, Props/C05q.lean (QuantFl), Props/C15F.lean and Props/C15Fc.lean take the standard model of floating-point arithmetic as a hypothesis (structure FlModel u: each + - x returns exact*(1+d), |d| <= u; FlModelU adds an absolute underflow term; FlModelX: representable exact results are returned exactly; max/min exact). That IEEE binary32/64 satisfies it with u = 2^-24 / 2^-53 absent overflow is assumed (Higham, Accuracy and Stability of Numerical Algorithms, Thm 2.2), not proved; the bit-level behaviour incl. NaN/inf is tied by the fbiquad correspondence over Lean Float32/Float, which trusts the Lean runtime's float primitives to be IEEE."],
+    "trusted_extra": ["Props/C03F.lean, Props/C04F.lean, Props/C05q.lean (QuantFl), Props/C15F.lean, Props/C15Fc.lean and Props/C15Fs.lean take the standard model of floating-point arithmetic as a hypothesis (structure FlModel u: each + - x returns exact*(1+d), |d| <= u; FlModelU adds an absolute underflow term; FlModelX: representable exact results are returned exactly; max/min exact). That IEEE binary32/64 satisfies it with u = 2^-24 / 2^-53 absent overflow is assumed (Higham, Accuracy and Stability of Numerical Algorithms, Thm 2.2), not proved; the bit-level behaviour incl. NaN/inf is tied by the fbiquad correspondence over Lean Float32/Float, which trusts the Lean runtime's float primitives to be IEEE."],
     "modules": ["C03", "C03F"],
     "families": ["biquad", "num", "fbiquad"],
     "n_quick": 150000, "n_thorough": 1500000,
@@ -168,7 +168,7 @@ PROPS["C03"] = {
     "rule": "all widths, N in {4,5,2}, coefficient styles (arbitrary, integrator, double integrator, identity), fed-back histories, accumulator-overflow cases",
 }
 PROPS["C04"] = {
-    "trusted_extra": ["Props/C03F.lean, Props/C04F.lean, Props/C05q.lean (QuantFl), Props/C15F.lean and Props/C15Fc.lean take the standard model of floating-point arithmetic as a hypothesis (structure FlModel u: each + - x returns exact*(1+d), |d| <= u; FlModelU adds an absolute underflow term; FlModelX: representable exact results are returned exactly; max/min exact). That IEEE binary32/64 satisfies it with u = 2^-24 / 2^-53 absent overflow is assumed (Higham, Accuracy and Stability of Numerical Algorithms, Thm 2.2), not proved; the bit-level behaviour incl. NaN/inf is tied by the fbiquad correspondence over Lean Float32/Float, which trusts the Lean runtime's float primitives to be IEEE."],
+    "trusted_extra": ["Props/C03F.lean, Props/C04F.lean, Props/C05q.lean (QuantFl), Props/C15F.lean, Props/C15Fc.lean and Props/C15Fs.lean take the standard model of floating-point arithmetic as a hypothesis (structure FlModel u: each + - x returns exact*(1+d), |d| <= u; FlModelU adds an absolute underflow term; FlModelX: representable exact results are returned exactly; max/min exact). That IEEE binary32/64 satisfies it with u = 2^-24 / 2^-53 absent overflow is assumed (Higham, Accuracy and Stability of Numerical Algorithms, Thm 2.2), not proved; the bit-level behaviour incl. NaN/inf is tied by the fbiquad correspondence over Lean Float32/Float, which trusts the Lean runtime's float primitives to be IEEE."],
     "modules": ["C04", "C04F"],
     "families": ["biquad", "fbiquad"],
     "n_quick": 150000, "n_thorough": 1500000,
@@ -237,8 +237,8 @@ PROPS["C14"] = {
     "rule": "random f32/f64 streams cut two ways (0-length, granule, maximal and random blocks), all ten tap sets, cascade depths 0..=4, in place and separate",
 }
 PROPS["C15"] = {
-    "trusted_extra": ["Props/C03F.lean, Props/C04F.lean, Props/C05q.lean (QuantFl), Props/C15F.lean and Props/C15Fc.lean take the standard model of floating-point arithmetic as a hypothesis (structure FlModel u: each + - x returns exact*(1+d), |d| <= u; FlModelU adds an absolute underflow term; FlModelX: representable exact results are returned exactly; max/min exact). That IEEE binary32/64 satisfies it with u = 2^-24 / 2^-53 absent overflow is assumed (Higham, Accuracy and Stability of Numerical Algorithms, Thm 2.2), not proved; the bit-level behaviour incl. NaN/inf is tied by the fbiquad correspondence over Lean Float32/Float, which trusts the Lean runtime's float primitives to be IEEE."],
-    "modules": ["C15", "C15spec", "C15F", "C15Fc"],
+    "trusted_extra": ["Props/C03F.lean, Props/C04F.lean, Props/C05q.lean (QuantFl), Props/C15F.lean, Props/C15Fc.lean and Props/C15Fs.lean take the standard model of floating-point arithmetic as a hypothesis (structure FlModel u: each + - x returns exact*(1+d), |d| <= u; FlModelU adds an absolute underflow term; FlModelX: representable exact results are returned exactly; max/min exact). That IEEE binary32/64 satisfies it with u = 2^-24 / 2^-53 absent overflow is assumed (Higham, Accuracy and Stability of Numerical Algorithms, Thm 2.2), not proved; the bit-level behaviour incl. NaN/inf is tied by the fbiquad correspondence over Lean Float32/Float, which trusts the Lean runtime's float primitives to be IEEE."],
+    "modules": ["C15", "C15spec", "C15F", "C15Fc", "C15Fs"],
     "families": ["hbf"],
     "n_quick": 3000, "n_thorough": 30000,
     "clauses_proved": [
@@ -246,7 +246,8 @@ PROPS["C15"] = {
         "after response_length() outputs of zero input every output is zero, stages and cascades, from any state (hbfdec_zero_after_response_length, hbfint_zero_after_response_length, *_cascade_zero_after_response_length, *_class versions for IEEE signed zeros)",
         "PUBLISHED SPEC for the exact (binary32) tap values over the rationals/reals, every depth 1..=4, both directions: taps are exactly the f32 values of the source literals (hbf_taps_are_binary32); the literal buffer model's impulse response is hbfCascadeFir (hbf_cascade_impulse_response_int/_dec); exactly symmetric, spans response_length()+1 samples, |DC - 1| < 1e-6 (hbf_cascade_symmetric, hbf_cascade_span, hbf_cascade_dc_gain); response = pure delay x real product of stage amplitudes (hbf_cascade_response_factorisation); pass band |gain - 1| <= 2.3e-7, ripple <= 2e-6 dB <= 3e-6 dB up to 0.4; stop band <= 1e-7 = -140 dB <= -138 dB from 0.6 to the high-rate Nyquist incl. all images (hbf_cascade_passband_ripple, hbf_cascade_stopband, hbf_cascade_spec_full_holds; tightness hbf_cascade_bounds_tight) -- certified by a kernel-run reflective interval checker on exact Chebyshev recurrences",
         "F32 EVALUATION (Props/C15F.lean), the stage model over the reals with the standard rounding model FlModel u, code's evaluation order (pair sum, times tap, left-to-right accumulation from zero; product l passes M-l+2 roundings): one symmetric-FIR output within sum_l g_{M-l+2} |(w[l]+w[2M-1-l]) t_l| of the exact value, tight (fhbf_symfir_error, fhbf_symfir_error_uniform, fhbf_symfir_error_tight); decimator and interpolator single outputs (fhbf_dec_output_error, fhbf_int_output_error; odd interpolator outputs are exact copies); BLOCK LEVEL: every output of every multi-block run from the zero state differs from the exact decimated convolution / convolution of the zero-stuffed input by at most the per-term bound, independent of run length (fhbf_dec_run_error, fhbf_int_run_error), uniform forms g_{M+4} (1/2 + sum|t|) B and g_{M+2} 2 sum|t| B for |x| <= B (fhbf_dec_run_error_uniform, fhbf_int_run_error_uniform); for the five published tap sets (the tied constants hbfTapsQ) in binary32: error <= c/2^24 * max|x| with c = 11, 8, 7, 7, 6 (decimator) and 14, 9, 7, 7, 6 (interpolator) (fhbf_dec_published_f32, fhbf_int_published_f32), so the C15spec figures hold for one f32 stage up to 8.4e-7 * max|x|",
-        "F32 CASCADES (Props/C15Fc.lean): HbfDecCascade / HbfIntCascade models of depth 0..4 over the reals, rounded run (FlModel 2^-24) against the exact run, from the zero state, ANY admissible block partition, |x| <= B: every output differs by at most E_d * B, E_d assembled by the recursion (A, D) -> (g A, eps (A + D) + g D) from the per-stage constants and the stages' l1 gains (fhbf_dec_cascade_error, fhbf_int_cascade_error, fhbf_cascade_exact_amplitude); numbers: E_d <= c_d / 2^24 with c = 11, 30, 57, 94 (decimating) and 14, 49, 111, 217 (interpolating, input-referred) for d = 1..4 (fhbf_cascade_constants, fhbf_dec_cascade_error_f32, fhbf_int_cascade_error_f32), i.e. at most -105 dB / -97 dB of full scale sample by sample (fhbf_cascade_error_db). Not proved: the transport of the exact real cascade to the rational cascades of C15spec along Rat.cast (same taps, same shapes, ring operations: by construction)",
+        "F32 CASCADES (Props/C15Fc.lean): HbfDecCascade / HbfIntCascade models of depth 0..4 over the reals, rounded run (FlModel 2^-24) against the exact run, from the zero state, ANY admissible block partition, |x| <= B: every output differs by at most E_d * B, E_d assembled by the recursion (A, D) -> (g A, eps (A + D) + g D) from the per-stage constants and the stages' l1 gains (fhbf_dec_cascade_error, fhbf_int_cascade_error, fhbf_cascade_exact_amplitude); numbers: E_d <= c_d / 2^24 with c = 11, 30, 57, 94 (decimating) and 14, 49, 111, 217 (interpolating, input-referred) for d = 1..4 (fhbf_cascade_constants, fhbf_dec_cascade_error_f32, fhbf_int_cascade_error_f32), i.e. at most -105 dB / -97 dB of full scale sample by sample (fhbf_cascade_error_db)",
+        "END TO END (Props/C15Fs.lean): the exact real cascades are ONE convolution with the published overall FIR hbfCascadeFir d (noble identities; fhbf_exact_cascade_is_published_fir), they are the Rat.cast image of the rational cascades of C15spec (fhbf_cascade_cast, fhbf_exact_int_cascade_impulse_response), and therefore (fhbf_f32_cascade_meets_published_fir): for every depth 1..4, both directions, any admissible partition, any input with |x| <= B, every output of the running f32 model (FlModel 2^-24) is within fhbfDecCascadeConst d / 2^24 * B (11, 30, 57, 94) resp. fhbfIntCascadeConst d / 2^24 * B (14, 49, 111, 217) of the output of the published FIR, whose symmetry, span, DC gain, ripple and attenuation are the C15spec theorems",
     ],
     "clauses_explored": [
         "the running f32 code on the real IEEE arithmetic: impulse response of the implementation on a dense frequency grid; stage = FIR to float rounding (native)",
@@ -342,6 +343,7 @@ PROPS["C19"] = {
     "rule": "quick: one phase per 256-block; thorough: all 2^32 phases",
 }
 PROPS["C20"] = {
+    "modules": ["C20", "C20b"],
     "families": ["osub", "satscale", "unwrap", "accu", "dsm", "pll", "lowpass", "cic_dec", "cic_int", "num", "biquad",
                  "cossin", "atan2", "complex", "lockin", "rpll", "sweep", "hbf", "fbiquad", "coeff", "pid", "glue", "repr"],
     "n_quick": 20000, "n_thorough": 200000,
@@ -349,6 +351,7 @@ PROPS["C20"] = {
         "per entry point: the checked model returns ok on the documented domain (c20_cossin, c20_atan2, c20_polar, c20_abs_sqr_log2, c20_cmul, c20_cmul_complex, c20_pll, c20_rpll, c20_lowpass1, c20_saturating_scale, c20_dsm, c20_cic_interpolate, c20_macc, c20_mul_div, c20_sweep_next); CIC decimator, Unwrapper, Accu, overflowing_sub, PLL are total functions of the model (explicitly wrapping code)",
         "half-band filters: every slice expression in range for admissible blocks (C14: hbfdec_output_length_in_range, hbfint_output_length_in_range, cascades)",
         "NEGATIONS (known findings): Lowpass<2> full scale (c20_neg_lowpass2), Dsm<8> (c20_neg_dsm8), Biquad partial sum (c20_neg_biquad_partial_sum)",
+        "REMAINING ENTRY POINTS (Props/C20b.lean, 28 corollaries of theorems in the other property files, uniform shape 'inside the documented domain the checked model returns .ok'): overflowing_sub / Unwrapper::update / Accu::next (total by type + range facts), Cic::decimate for any order, rate, width, input (c20b_cic_decimate), Cic::gain where R^N is representable, Cic::interpolate where the exact recursion fits; Lowpass<2>: any input sequence within +-2^29 from a settled state or after set(), every step between levels within +-2^30 (c20b_lowpass2_*), and the unconditional clause 'any sample' proved FALSE (c20b_lowpass2_any_sample_full_false: F-C10); Lockin: one step reduces to the two Lowpass<2> updates, tone runs with A <= 2^30 never panic (c20b_lockin_step, c20b_lockin_run); Dsm K = 0 (after the fix), K <= 7 from every invariant state, 1 <= K <= 8 returns iff no exact MASH output equals +128 (c20b_dsm_*); half-band stages and cascades: for admissible block lists every slice bound of the Rust code holds and the output counts match the debug assertions (c20b_hbf*); fixed-point Biquad update::<4/5>: checked .ok when every partial sum fits, release always; quantize and Biquad::from saturate into range; complex from_angle / arg / saturating add, sub. The file ends with the explicit list of entry points that have NO no-panic theorem (fixed-point update::<2>, forward_gain / input_offset helpers, Nyquist / Repeat / Cascade combinators, settle_interpolate, CIC from non-zero states, Lowpass<2> beyond the proved domains, Sweep::fit and the float helpers, PidBuilder::build on floats): those are covered by the checked-profile correspondence and the native oracle only",
     ],
     "clauses_explored": [
         "panics that originate in Rust mechanics rather than arithmetic (slice indexing inside iterator adaptors, copy_within, unimplemented!() arms, float helpers of Sweep, coefficient builders in f64): checked-profile correspondence on every op family (PANIC lines must agree with the model) and the union of all native oracles plus sweeps of Sweep::next / Sweep::fit / AccuOsc / complex helpers / Nyquist",
